@@ -200,6 +200,20 @@ CHECKS["C07"] = dict(
     category="fault_enumeration" if False else "model_checking",
     ref="4 C07", technique="TLA+ model checking (TLC) + crash-point enumeration on the real server + stateful trace validation")
 
+CHECKS["C09"] = dict(
+    text="The server's document handling is specified with one program counter per in-flight handler at the code's "
+         "await points (configuration round trip, dictionary load, document-state lock, publish) in spec/LspServer.tla; "
+         "TLC explores every interleaving of up to MaxInFlight handlers over 2 documents and checks the quiescent "
+         "last-word invariant, with overlapping handlers for one document as the explicitly named deviation so that any "
+         "other route to a stale last word is reported. On the real Backend (in process) every sequential history of "
+         "two messages of every kind per document kind (saved .txt, saved .md, untitled) is run, and batches of 2-4 "
+         "messages sent back to back are run under explicit schedules (handler futures polled by the harness, "
+         "configuration answers delivered in every/random order); the stateful trace spec "
+         "(spec/trace/Trace_LspServer.tla) tracks the client's newest text and the last publish per url.",
+    note="Trusted: TLC; the published text is identified through per-text misspellings. Interleavings inside the "
+         "dictionary-loading part are left to the runtime (no gating hooks).",
+    ref="4 C09", technique="TLA+ model checking (TLC) + schedule replay on the real server + stateful trace validation")
+
 NOT_YET = {}
 
 
